@@ -83,7 +83,7 @@ func newBackend(r *kernel.Run, kind, name string) nodeenrollment.Storage {
 		if err != nil {
 			r.HarnessErr("file: %v", err)
 		}
-		r.OnClose(func() { os.RemoveAll(dir) })
+		r.OnEnd(func() { os.RemoveAll(dir) })
 		return s
 	}
 	r.HarnessErr("unknown backend %s", kind)
